@@ -44,7 +44,8 @@ fn emit_case(out: &mut dyn Write, o: &Opts, c: &Case, hist: &mut BTreeMap<String
         // coverage of the Lean theorem mixed_roundtrip (DM/Props/C01.lean): no prefix codewords
         // (macro / FNC1 / ECI) and a plan without EDIFACT and without a latch to a non-ASCII mode
         // scheduled for the last four characters
-        let shaped = c.fnc1 || c.eci.is_some() || (c.macros && vh::macro_prefix(&c.data, true, false).0.len() > 0);
+        // (macro / FNC1 prefix codewords are covered by macro_roundtrip / fnc1_roundtrip; ECI designators are not)
+        let shaped = c.eci.is_some();
         let mut late = false;
         let mut edi = false;
         let mut single = true;
@@ -58,7 +59,7 @@ fn emit_case(out: &mut dyn Write, o: &Opts, c: &Case, hist: &mut BTreeMap<String
             match first { None => first = Some(m), Some(f) => if f != m { single = false; } }
         }
         if shaped {
-            note(hist, "roundtrip_theorem_not_applicable_prefix");
+            note(hist, "roundtrip_theorem_not_applicable_eci");
         } else if !edi && !late {
             note(hist, "roundtrip_theorem_covers_plan");
         } else if single {
